@@ -33,7 +33,7 @@ ASSUMPTIONS = [
 
 
 def bounds(tier):
-    return {"k": 2 if tier == "quick" else 3, "compilers": cc.COMPILER_KEYS}
+    return {"k": 2 if tier == "quick" else "3 (2 for level-2 instances with a non-core choice)", "compilers": cc.COMPILER_KEYS}
 
 
 def shards(tier, seed):
@@ -49,9 +49,9 @@ def shards(tier, seed):
 
 def run_shard(shard, tier, seed):
     acc = Acc()
-    k = 2 if tier == "quick" else 3
     for cid in shard["cids"]:
-        check_case(shard["compiler"], tuple(tuple(x) for x in cid), k, acc)
+        cid = tuple(tuple(x) for x in cid)
+        check_case(shard["compiler"], cid, cc.plan_length(cid, tier), acc)
     return acc
 
 
